@@ -3032,9 +3032,7 @@ def cmp_table_problems(rows, char_letter='H'):
         scalars_equal = rel is True and (Ta == Tb or char_letter in (Ta, Tb))
         pair = "'%s' and '%s'" % (Ta, Tb)
         if dim == 'scalar':
-            if scalars_equal and v != 1:
-                out.setdefault('equal-unequal', 'two descriptors of type groups %s with the same size compare UNEQUAL: the shortcut is lost (harmless) -- but for identical groups a view can no longer be '
-                               're-acquired as its own dtype through this path' % pair)
+            # (a verdict of 0 is always safe: the format check then runs -- only unjustified verdicts of 1 are findings)
             if not scalars_equal and v != 0:
                 kind = 'size' if (Ta == Tb or char_letter in (Ta, Tb)) else 'group' if rel is True else 'both'
                 out.setdefault('mismatch-equal:%s' % kind,
@@ -3064,7 +3062,20 @@ def _rule_cmptab(ctx, func, produced, rid, dims, floor, desc):
     if len(params) != 2:
         raise AnalysisError('__pyx_typeinfo_cmp: expected two __Pyx_TypeInfo parameters')
     letters = sorted(produced)
-    rows = cmp_table(d.body, params, letters, dims)
+    # a comparison delegated to a pure helper that is handed both descriptors (`static int same(x, y) { return <expr>; }`) is read in the helper
+    body = d.body
+    for m in list(re.finditer(r'\b(\w+)\s*\(\s*(%s|%s)\s*,\s*(%s|%s)\s*\)' % (params[0], params[1], params[0], params[1]), d.body)):
+        if m.group(1) == d.name or m.group(2) == m.group(3):
+            continue
+        for h in ctx.cat.decls.get(m.group(1), []):
+            hp = [n for n, t in zip(h.param_names(), h.param_types()) if '__Pyx_TypeInfo' in t] if h.kind == 'func' and h.body else []
+            one = re.fullmatch(r'\{\s*return\b([^;{}]+);\s*\}', h.body.strip()) if len(hp) == 2 else None
+            if one:
+                e = re.sub(r'\b%s\b' % re.escape(hp[0]), '\x00A', one.group(1))
+                e = re.sub(r'\b%s\b' % re.escape(hp[1]), '\x00B', e)
+                body = body.replace(m.group(0), '(%s)' % e.replace('\x00A', m.group(2)).replace('\x00B', m.group(3)).strip())
+                break
+    rows = cmp_table(body, params, letters, dims)
     for k, v in rows.items():
         r.inst('cmp:%s:%s:%s:%s:%s' % k, sample="a '%s' vs b '%s', size of a %s, plain char %s, %s -> %s" % (k[0], k[1], 'equal' if k[2] is True else k[2], 'unsigned' if k[3] else 'signed', k[4], v))
     for k, msg in cmp_table_problems(rows):
@@ -3075,12 +3086,12 @@ def _rule_cmptab(ctx, func, produced, rid, dims, floor, desc):
 
 
 def rule_cmptab(ctx, func, produced):
-    return _rule_cmptab(ctx, func, produced, 'C17-CMPTAB', ('scalar',), 150,
+    return _rule_cmptab(ctx, func, produced, 'C17-CMPTAB', ('scalar',), 100,
                         'decision table of the dtype-equality shortcut __pyx_typeinfo_cmp over (type group of a) x (type group of b) x (size equal / larger / smaller) x (signedness of plain char) '
                         'for scalar descriptors: equal exactly for the same size with the same type group or a char on either side (the exemption of the format checker, with its size test)')
 
 
 def rule_cmpdim(ctx, func, produced):
-    return _rule_cmptab(ctx, func, produced, 'C17-CMPDIM', ('a-array', 'b-array', 'arrays'), 450,
+    return _rule_cmptab(ctx, func, produced, 'C17-CMPDIM', ('a-array', 'b-array', 'arrays'), 300,
                         'the same decision table of __pyx_typeinfo_cmp for array members: an array never equals a scalar, and two arrays are only equal after their extents were compared '
                         '-- also under the char exemption')
